@@ -217,6 +217,7 @@ pub fn gen_dict_program(t: &mut Tape) -> DictProgram {
             3, // 16 an equal dictionary built independently (other insertion order), compared
             if has_dup { 4 } else { 0 }, // 17 call the function with repeated parameter names
             2, // 18 characters of a long plain string, up to and past its end
+            1, // 19 a loop that goes round more than a thousand times
         ];
         match t.weighted(&w) {
             0 => {
@@ -341,6 +342,16 @@ pub fn gen_dict_program(t: &mut Tape) -> DictProgram {
                 }
             }
             17 => src.push_str("Say Twice taking 1, 2, 3, 4\n"),
+            19 => {
+                // (cheap: nothing but the counter; with the clock seam whole
+                // minutes pass while it runs)
+                features.push("loop of more than a thousand rounds");
+                let rounds = [1025u32, 1500, 2049, 4097][t.draw(4) as usize];
+                src.push_str(&format!(
+                    "Put 0 into Ticks\nWhile Ticks is less than {}\nBuild Ticks up\n\nSay Ticks\n",
+                    rounds
+                ));
+            }
             18 => {
                 features.push("string indexed at and past its end");
                 let len = 30 + t.draw(40) as usize;
@@ -1153,7 +1164,18 @@ fn fresh_process_only(
         .map_err(|e| e.to_string())?;
     let spec = ProcSpec {
         args: vec!["exec".into(), file.clone().into_os_string()],
-        env: vec![("RRSS_VERIF_HASH_SEED".to_string(), "0".to_string())],
+        env: {
+            // the fresh process also lives at another time, and time passes
+            // quickly there (clock seam): nothing observable depends on it
+            let mut env = vec![("RRSS_VERIF_HASH_SEED".to_string(), "0".to_string())];
+            let skew = procworld::clock_env_for(hash_bytes(source.as_bytes()));
+            if !skew.is_empty() {
+                stats.inc("fault.configured.clock_skew_and_fast_time");
+                stats.inc("fault.fired.clock_skew_and_fast_time");
+            }
+            env.extend(skew);
+            env
+        },
         cwd: scratch.path.clone(),
         stdin: input.to_vec(),
         stdin_kind: StdinKind::File,
@@ -1253,6 +1275,12 @@ fn process_arm(
         }
         if i == 2 {
             env.push(("TERM".into(), "xterm".into()));
+            let skew = procworld::clock_env_for(hash_bytes(source.as_bytes()) ^ 0x9e37);
+            if !skew.is_empty() {
+                stats.inc("fault.configured.clock_skew_and_fast_time");
+                stats.inc("fault.fired.clock_skew_and_fast_time");
+            }
+            env.extend(skew);
         }
         let spec = ProcSpec {
             args: vec!["exec".into(), file.clone().into_os_string()],
